@@ -44,6 +44,17 @@ fn emit_native(_: &JsValue, args: &[JsValue], ctx: &mut Context) -> JsResult<JsV
     Ok(JsValue::undefined())
 }
 
+/// `__detach(buffer)`: host-side DetachArrayBuffer (what `postMessage` transfer does in a browser).
+fn detach_native(_: &JsValue, args: &[JsValue], _: &mut Context) -> JsResult<JsValue> {
+    let obj = args
+        .first()
+        .and_then(JsValue::as_object)
+        .ok_or_else(|| boa_engine::JsNativeError::typ().with_message("__detach: not an object"))?;
+    let buf = boa_engine::object::builtins::JsArrayBuffer::from_object(obj.clone())?;
+    buf.detach(&JsValue::undefined())?;
+    Ok(JsValue::undefined())
+}
+
 fn gc_native(_: &JsValue, _: &[JsValue], _: &mut Context) -> JsResult<JsValue> {
     boa_gc::force_collect();
     Ok(JsValue::undefined())
@@ -209,7 +220,7 @@ fn eval_with_origin(ctx: &mut Context, bytes: &[u8], origin: &str, work: &str) -
         }
         "reader" => ctx.eval(Source::from_reader(SlowReader { data: bytes, pos: 0 }, None)),
         "file" => {
-            let p = std::path::Path::new(work).join(format!("src_{:?}.js", std::thread::current().id()));
+            let p = std::path::Path::new(work).join(format!("src_{}_{:?}.js", std::process::id(), std::thread::current().id()));
             std::fs::write(&p, bytes).expect("write scratch");
             let r = match Source::from_filepath(&p) {
                 Ok(s) => ctx.eval(s),
@@ -264,6 +275,8 @@ fn setup_context(ctx: &mut Context, job: &Value, prelude: &str) -> Result<(), St
     ctx.register_global_builtin_callable(js_string!("__emit"), 1, NativeFunction::from_fn_ptr(emit_native))
         .map_err(|e| e.to_string())?;
     ctx.register_global_builtin_callable(js_string!("__gc"), 0, NativeFunction::from_fn_ptr(gc_native))
+        .map_err(|e| e.to_string())?;
+    ctx.register_global_builtin_callable(js_string!("__detach"), 1, NativeFunction::from_fn_ptr(detach_native))
         .map_err(|e| e.to_string())?;
     if let Some(l) = job.get("limits") {
         apply_limits(ctx, l);
